@@ -36,9 +36,9 @@ import (
 //               target = k*64 or k*512 and offset -1, 0, +1;
 //
 // and judges the tuned set as a single trie, as one of several tries of one bucket value (in the
-// first / a middle / the last trie), spread over several dictionaries of the bucket, and as the
-// UNION of several dictionaries that a merge rebuilds into one trie - always after serialise +
-// load, MarshalSize == bytes written, against the sorted-map model.
+// first / a middle / the last trie), and as the UNION of several dictionaries that a merge rebuilds
+// into one trie - always after serialise + load, MarshalSize == bytes written, against the
+// sorted-map model.
 
 type trieShape struct {
 	labels, nodes int
@@ -103,6 +103,16 @@ func aboveLevelBoundary(per []int) bool {
 	}
 	return false
 }
+
+// styleWide: nodes with very many labels (up to 256) below nodes with two labels: even key
+// positions hold one of two bytes, odd positions any byte. The other styles build narrow nodes, so
+// that a node which spans several 64-bit words of the louds vector - in particular the LAST node of
+// the trie reaching over the last word boundary into the end of the vector - would not occur.
+var (
+	styleWide  = keyStyle{name: "wide", alphabet: []byte("nm"), minLen: 2, maxLen: 4, wide: true}
+	styleWide2 = keyStyle{name: "wide2", alphabet: []byte("nm"), fixed: 2, wide: true} // two nodes of up to 256 labels on the last level
+	styleWide4 = keyStyle{name: "wide4", alphabet: []byte("nm"), fixed: 4, wide: true}
+)
 
 type boundaryTarget struct {
 	quantity string // labels | nodes | labels-above-level | nodes-above-level
@@ -352,9 +362,12 @@ func TestVectorBoundaries(t *testing.T) {
 	const grp = "TestVectorBoundaries"
 	rapid.Check(t, func(t *rapid.T) {
 		bt := drawBoundaryTarget(t)
-		st := bigStyles[rapid.IntRange(0, len(bigStyles)-1).Draw(t, "style")]
+		st := append([]keyStyle{styleWide, styleWide2, styleWide4}, bigStyles...)[rapid.IntRange(0, len(bigStyles)+2).Draw(t, "style")]
 		if bt.value() <= 200 && rapid.IntRange(0, 1).Draw(t, "smallStyle") == 0 {
 			st = smallStyles[rapid.IntRange(0, len(smallStyles)-1).Draw(t, "style")]
+		}
+		if st.name == "wide2" && (bt.quantity != "labels" || bt.value() > 450) {
+			st = styleWide4 // 512 keys and 3 nodes are all that wide2 has
 		}
 		s := &prngSrc{s: rapid.Uint64().Draw(t, "keySeed")}
 		ks, sh, hit := tuneKeys(s, st, bt)
